@@ -41,6 +41,15 @@ claimed = {
  "C03": ("proof", "DESIGN.md 3.8, 4 (C03)", "contract-based deductive verification: lock-set / atomicity / guard / lock-order obligations from the symbolic execution, plus the sequential invariant proofs as lock invariant",
          "Every path of the four public operations is checked to run inside exactly one critical section of the tracker mutex (no map lock acquired, no guarded map or user field touched outside it, mutex not re-acquired), every access to GenericSyncMap.m holds its mtx, no lock is acquired while held, nothing is held at return. With the sequential proofs (each operation proved from an arbitrary invariant-satisfying state = state havocked at acquisition) this gives, for all schedules and any number of goroutines, linearizability by mutual exclusion, absence of data races on tracker state and of self-deadlock. Found and fixed D1.",
          "The step 'single critical section => serialisable' is a textbook meta-argument, not mechanised; sync.Mutex semantics and the Go memory model are assumed; races outside tracker state are not covered."),
+ "C12": ("proof", "DESIGN.md 4 (C12)", "contract-based deductive verification: loop invariant of Ingest's read loop over the assumed contract of bufio.Reader.ReadString and a ghost trace of callback invocations",
+         "For every byte stream behind the reader and every callback behaviour: callbacks == records returned so far, in order, exact bytes, same ctx; first callback error returned unchanged and nothing delivered after it; read errors (EOF included) returned, never nil; the unterminated tail is never delivered.",
+         "Chunking independence is the assumed bufio contract (stated over the byte stream); the opening goroutine is joined at the receive from the channel it closes."),
+ "C13": ("other", "DESIGN.md 3.8(4), 4 (C13)", "contract-based verification, structural back end: blocking-effect obligations over the symbolic execution of every worker (+ SMT obligation for provable channel room)",
+         "Every potentially blocking operation of both pipe ingesters, the sshd hand-off, the audit processor, its parser goroutine and the reassembler maintenance loop is proved to be a select with a ctx.Done() arm, a send with provable room, a call to a callee verified cancellable / never blocking, or one of two declared external calls with their wake-up mechanism. Found and fixed D4 (bare send in AuditLogIngester.Process). Level 'other': the safety skeleton (no uncancellable blocking state) is proved; 'returns within a bounded time' is timing and is not decided.",
+         "FIFO close wakes ReadString; abandoned os.OpenFile; scheduler fairness; bounded time itself."),
+ "C15": ("proof", "DESIGN.md 4 (C15)", "contract-based deductive verification: loop invariant over ghost traces of received lines / pushed messages, error-retention postcondition, channel message invariant, required select arms",
+         "parseAuditLogs: bijection between non-empty received lines and pushes, in order, for any stream; ends only by cancellation or with a parse error wrapping the parser's error for the last line. ReassemblyComplete: one hand-off per coalesced event; on failure the 1-slot error channel is non-empty afterwards. Read: non-nil error on every failure arm, RemoteLogin errors cannot be skipped, required receive arms present.",
+         "Record grouping inside go-libaudit, select fairness, Sprintf message text are not decided (listed)."),
 }
 na_reason = "not yet built in this revision of the machinery (see DESIGN.md section 7 for the construction order)"
 props = [json.loads(l) for l in open('/verif/properties.jsonl')]
